@@ -64,5 +64,118 @@ func propTable() map[string]*PropSpec {
 			Outside:     []string{"timer goroutine racing Stop, 'not before the timeout', eventual delivery, slow/absent channel reader: properties of the Go runtime timer and scheduler"},
 		}
 	}
+	// ---------------- C02 ----------------
+	{
+		var q, th []RunConfig
+		for _, k := range []int{1, 3, 4} {
+			c := rc(fmt.Sprintf("C02_Struct/signers=%d", k), ".", "C02_Struct", map[string]int{"signers": k})
+			c.RequireReach = []string{"C02.accepted_soft", "C02.accepted_strict"}
+			q = append(q, c)
+		}
+		for _, l := range []int{0, 8, 12} {
+			q = append(q, rc(fmt.Sprintf("C02_Bytes/len=%d", l), ".", "C02_Bytes", map[string]int{"len": l}))
+		}
+		for k := 0; k <= 5; k++ {
+			c := rc(fmt.Sprintf("C02_Struct/signers=%d", k), ".", "C02_Struct", map[string]int{"signers": k})
+			if k >= 1 && k <= 4 {
+				c.RequireReach = []string{"C02.accepted_soft"}
+			}
+			th = append(th, c)
+		}
+		for _, l := range []int{0, 1, 2, 3, 4, 5, 6, 7, 8, 12, 16, 20, 24} {
+			th = append(th, rc(fmt.Sprintf("C02_Bytes/len=%d", l), ".", "C02_Bytes", map[string]int{"len": l}))
+		}
+		t["C02"] = &PropSpec{ID: "C02", Quick: q, Thorough: th,
+			Assumptions: []string{"ideal signature registry (zzverifstub.Registry): a signature verifies exactly for the (signer, height, content bytes) it was made for", "block commitment stub: hash is the block's one-byte tag", "random-seed summaries: seed = the 8 signature bytes (injective), group signature = injective function of (height, seed)"},
+			Bounds:      []string{"committee of 4 (ids 1..4), symbolic 64-bit weights; structured proofs with 0..5 signers, every field symbolic (type tag 16 bit, instance/height/view 64 bit, hash 1 byte, signer ids 1 byte, signatures 8 bytes, per-signer validity symbolic); arbitrary proof byte strings of length <= 12 (quick) / <= 24 (thorough)"},
+			Outside:     []string{"arbitrary byte strings longer than 24 bytes; committees other than 4 members; hashes/ids longer than one byte"},
+		}
+	}
+
+	// ---------------- C12 ----------------
+	{
+		var q, th []RunConfig
+		for _, l := range []int{0, 4, 8, 12, 16} {
+			q = append(q, rc(fmt.Sprintf("C12_Bytes/len=%d", l), ".", "C12_Bytes", map[string]int{"len": l}))
+		}
+		for _, l := range []int{0, 1, 2, 3, 4, 5, 6, 7, 8, 12, 16, 20, 24} {
+			th = append(th, rc(fmt.Sprintf("C12_Bytes/len=%d", l), ".", "C12_Bytes", map[string]int{"len": l}))
+		}
+		t["C12"] = &PropSpec{ID: "C12", Quick: q, Thorough: th,
+			Assumptions: []string{"channel model: the harness plays the sending goroutine (one pending send on messagesChannel); the loop context is cancelled when the loop is idle"},
+			Bounds:      []string{"fully symbolic content bytes of length <= 16 (quick) / <= 24 (thorough), with and without a block; one iteration of MainLoop.run then one of WorkerLoop.Run"},
+			Outside:     []string{"byte strings longer than 24; govnr restarts; survival beyond the follow-up round"},
+		}
+	}
+	// ---------------- C20 ----------------
+	{
+		var q, th []RunConfig
+		mk := func(h string, params map[string]int, reach string) RunConfig {
+			name := h
+			for _, k := range []string{"idlen", "hashlen", "prepares", "proof", "votes", "proofmask", "commits"} {
+				if v, ok := params[k]; ok {
+					name += fmt.Sprintf("/%s=%d", k, v)
+				}
+			}
+			c := rc(name, ".", h, params)
+			c.RequireReach = []string{reach}
+			return c
+		}
+		lens := []int{0, 1, 2, 3, 4, 5, 8, 32}
+		for _, il := range lens {
+			for _, hl := range lens {
+				c := mk("C20_Simple", map[string]int{"idlen": il, "hashlen": hl}, "C20.simple.done")
+				th = append(th, c)
+				if il == hl || (il == 1 && hl == 32) || (il == 3 && hl == 0) {
+					q = append(q, c)
+				}
+			}
+		}
+		for _, il := range []int{0, 1, 3, 8} {
+			for pr := 0; pr <= 3; pr++ {
+				for proof := 0; proof <= 1; proof++ {
+					if proof == 0 && pr > 0 {
+						continue
+					}
+					c := mk("C20_ViewChange", map[string]int{"idlen": il, "hashlen": (il + 1) % 5, "prepares": pr, "proof": proof}, "C20.VC.done")
+					th = append(th, c)
+					if il == 1 || (il == 3 && pr == 2) {
+						q = append(q, c)
+					}
+				}
+			}
+		}
+		for votes := 0; votes <= 4; votes++ {
+			for _, mask := range []int{0, 1, 5, 15} {
+				if mask >= 1<<uint(votes) && mask != 0 {
+					continue
+				}
+				for _, pr := range []int{0, 2, 3} {
+					if mask == 0 && pr > 0 {
+						continue
+					}
+					c := mk("C20_NewView", map[string]int{"idlen": 1 + votes%3, "hashlen": 1 + (votes+pr)%4, "votes": votes, "prepares": pr, "proofmask": mask}, "C20.NV.done")
+					th = append(th, c)
+					if pr != 3 {
+						q = append(q, c)
+					}
+				}
+			}
+		}
+		for commits := 1; commits <= 4; commits++ {
+			for _, il := range []int{1, 2, 5} {
+				c := mk("C20_BlockProof", map[string]int{"idlen": il, "hashlen": il + 1, "commits": commits}, "C20.proof.done")
+				th = append(th, c)
+				if il == 1 {
+					q = append(q, c)
+				}
+			}
+		}
+		t["C20"] = &PropSpec{ID: "C20", Quick: q, Thorough: th,
+			Assumptions: []string{"ideal signature registry: a signature verifies exactly for the bytes it was made for"},
+			Bounds:      []string{"byte-field lengths from {0,1,2,3,4,5,8,32} (all residues mod 4, the alignment period of membuffers); 0..4 votes; 0..3 PREPARE senders per proof; 1..4 commits per block proof; all field contents (instance, height, view 64-bit; ids, hashes) symbolic"},
+			Outside:     []string{"field lengths other than the listed ones (the statement quantifies over 0..256); more than 4 votes / 3 prepare senders (statement: 0..20)"},
+		}
+	}
 	return t
 }
